@@ -184,6 +184,7 @@ func c01Opts() bridge.GenOpts {
 	o.Weights = map[string]int{"deposit": 16, "transfer": 14, "send": 26, "xexec": 14, "cancel": 8, "send2": 3, "byz": 7, "xround": 5, "xbyzexec": 5}
 	o.MaxVals = 5
 	o.TimeoutMs = []uint64{20000, 60000, 20001, 86400000 - 1}
+	o.SharedAddr = true
 	return o
 }
 
